@@ -7,7 +7,7 @@ set_option linter.unusedSimpArgs false
 
 namespace Hv.Summon
 
-def rc : Cfg := { refCounted := true }
+def rc : Cfg := { refCounted := true, callbackCompares := true }
 
 /-- the thread has counted itself on its slot and not yet given the count back -/
 def isA : Pc → Bool
@@ -404,7 +404,7 @@ theorem inv_bodyCreate (s : St) (h : Inv s) (t : Nat) (hpc : (s.thr t).pc = .cre
     · rw [a] at e; simp at e
 
 theorem inv_bodyStore (s : St) (h : Inv s) (t i : Nat) (hpc : (s.thr t).pc = .created i) :
-    Inv { s with thr := setThr s t ⟨.leaving, (s.thr t).slot⟩, swampMap := some i } := by
+    Inv { s with thr := setThr s t ⟨.leaving, (s.thr t).slot⟩, swampMap := some i, published := s.published ++ [i] } := by
   have hI := h
   obtain ⟨hP, hN, hO, hCr, hM, hE, hCg, hL⟩ := h
   have hcs : isCS (s.thr t).pc = true := by rw [hpc]; rfl
@@ -465,13 +465,22 @@ theorem inv_bodyStore (s : St) (h : Inv s) (t i : Nat) (hpc : (s.thr t).pc = .cr
     · rw [a] at e; simp at e
 
 theorem inv_close (s : St) (h : Inv s) (i : Nat) (hm : s.swampMap = some i) :
-    Inv { s with swampMap := none, live := s.live.erase i } := by
+    Inv { s with live := s.live.erase i, swampMap := none } := by
   obtain ⟨hP, hN, hO, hCr, hM, hE, hCg, hL⟩ := h
   refine ⟨hP, hN, hO, ?_, ?_, ?_, ?_, hL⟩
   · intro y j e; exact absurd e ((hM i hm).2 y j)
   · intro j hj; simp at hj
   · intro _ _; show s.live.erase i = []; rw [(hM i hm).1]; simp
   · intro _ _; rfl
+
+/-- published instances: a live one is the mapped one; ids are below the allocation counter -/
+structure PubInv (s : St) : Prop where
+  liveMapped : ∀ i ∈ s.published, i ∈ s.live → s.swampMap = some i
+  below : ∀ i ∈ s.published, i < s.nextInst
+  createdBelow : ∀ t j, (s.thr t).pc = .created j → j < s.nextInst
+
+theorem pub_init : PubInv init := by
+  constructor <;> simp [init]
 
 theorem inv_leaveUnready (s : St) (h : Inv s) (t : Nat) (hpc : (s.thr t).pc = .leaving) :
     Inv { s with slots := setSlot s (s.thr t).slot { s.slots (s.thr t).slot with owner := none },
